@@ -233,7 +233,11 @@ def tlvInto (t : TagSpec) (enc : Enc) (isBer : Bool) (known : Tag → Bool)
           else
           let objs' := insertKV tag (into tag objs (data.drop offset)) objs
           match res tag (data.drop offset) with
-          | .ok (_, read) => tlvInto t enc isBer known res into fuel data (offset + read) objs' (markTag tag set)
+          | .ok (_, read') =>
+            -- an element that consumed neither tag nor value bytes is an error (fix d0ad63f);
+            -- its tag has been marked by then
+            if read = 0 ∧ read' = 0 then (objs', markTag tag set)
+            else tlvInto t enc isBer known res into fuel data (offset + read') objs' (markTag tag set)
           | _ => (objs', set)
 
 /-- residue of the scan of `unpackSubfieldsByBitmap` -/
